@@ -337,3 +337,32 @@ Definition env_of (c : config) : env :=
 
 Definition mk_offer_ (i f t : nat) : offer := {| oid_ := i; ofrom := f; oto := t |}.
 Definition default_fuel : nat := 200 * 100.
+
+(* ======================================================================
+   Histories: queries interleaved with changes of the hierarchy (ABCMeta.register: the new issubclass table and MROs
+   are read from the interpreter) and of the registry (register_offer).  The model has no memory: every query is
+   answered from the state current at that point.
+   ====================================================================== *)
+Definition query := (ty * ty * bool * api)%type.     (* source type, target protocol, adaptee flag, entry point *)
+Record hstate := mkH { h_sub : list (list bool); h_mro : list (list ty); h_offers : list (ty * ty * fac) }.
+Inductive hop :=
+| HQuery (q : query)
+| HTables (s : list (list bool)) (m : list (list ty))      (* the hierarchy changed: tables as they are now *)
+| HOffer (o : ty * ty * fac).                               (* register_offer: appended, id = position *)
+
+Definition config_of (st : hstate) (q : query) : config :=
+  let '(src, tgt, flag, _) := q in
+  {| c_sub := h_sub st; c_mro := h_mro st; c_offers := h_offers st; c_src := src; c_target := tgt; c_flag := flag |}.
+
+Definition hstep (fuel : nat) (st : hstate) (o : hop) : hstate * option outcome :=
+  match o with
+  | HQuery q => (st, Some (run_api (env_of (config_of st q)) fuel (snd q)))
+  | HTables s m => (mkH s m (h_offers st), None)
+  | HOffer x => (mkH (h_sub st) (h_mro st) (h_offers st ++ [x]), None)
+  end.
+
+Fixpoint hrun (fuel : nat) (st : hstate) (ops : list hop) : list (hop * option outcome) :=
+  match ops with
+  | [] => []
+  | o :: r => let '(st', ob) := hstep fuel st o in (o, ob) :: hrun fuel st' r
+  end.
